@@ -328,6 +328,9 @@ pub fn generate(seed: u64, flavor: &str) -> RunSpec {
         _ => 4,
     };
     let threads = if cold_flavor { threads.max(2) } else { threads };
+    // wide style: more caller threads, more objects, long haystacks than the ordinary bounds
+    let wide = !cold_flavor && rng.chance(4, 100);
+    let threads = if wide { rng.range(5, MAX_THREADS) } else { threads };
     let slots = match rng.below(100) {
         0..=39 => 1,
         40..=74 => 2,
@@ -337,7 +340,8 @@ pub fn generate(seed: u64, flavor: &str) -> RunSpec {
     // compile-storm style: construction-heavy scripts (many compilations of several distinct
     // keys racing with each other and with calls), for state shared between compilations
     let storm = !cold_flavor && rng.chance(12, 100);
-    let nfam = if storm { rng.range(3, 5) } else { rng.range(1, 3) };
+    let slots = if wide { rng.range(5, MAX_SLOTS) } else { slots };
+    let nfam = if storm || wide { rng.range(3, 5) } else { rng.range(1, 3) };
     let anchor = rng.below(blocks().len());
     let fams_owned: Vec<Family> = (0..nfam)
         .map(|_| pick_family(&mut rng, blocky, anchor))
@@ -637,6 +641,29 @@ pub fn generate(seed: u64, flavor: &str) -> RunSpec {
         scripts.push(ops);
     }
 
+    if wide {
+        // long haystacks: several corpus inputs joined (up to ~160 characters)
+        for sc in scripts.iter_mut() {
+            for op in sc.iter_mut() {
+                let input = match op {
+                    Op::IsMatch { input, .. }
+                    | Op::ReplaceAll { input, .. }
+                    | Op::Tokenize { input, .. }
+                    | Op::Analyze { input, .. } => input,
+                    _ => continue,
+                };
+                if rng.chance(50, 100) {
+                    let mut long = input.clone();
+                    for _ in 0..rng.range(2, 4) {
+                        let f = fams[rng.below(fams.len())];
+                        long.push_str(if rng.chance(50, 100) { " " } else { "\n" });
+                        long.push_str(&pick_input0(&mut rng, f, &fams));
+                    }
+                    *input = long.chars().take(160).collect();
+                }
+            }
+        }
+    }
     // F11: simulated clock jumps inside calls, and simulated time passing between operations
     let mut jumps = Vec::new();
     if rng.chance(8, 100) {
